@@ -104,10 +104,26 @@ def replay(cex):
             fn = {'binary_spatial_test': be.binary_spatial_test, 'binary_conditional_likelihood_test': be.binary_conditional_likelihood_test,
                   'brier_score_test': br.brier_score_test}[cex['fn']]
             try:
-                res = fn(fore, cat, num_simulations=1, seed=3)
+                if cex.get('rn'):
+                    res = fn(fore, cat, num_simulations=1, random_numbers=np.array([cex['rn']]))
+                else:
+                    res = fn(fore, cat, num_simulations=1, seed=3)
             except Exception as e:
                 return True, '%s raised %r (rates %r counts %r)' % (cex['fn'], e, cex['rates'], cex['counts'])
             R, W = np.array(cex['rates'], dtype=float), np.array(cex['counts'])
+            if cex.get('rn'):
+                # independent reference for the simulated entry: inverse-CDF placement of the supplied numbers, activity only
+                rr = R.ravel()
+                wts = np.cumsum(rr) / np.sum(rr)
+                cells = np.searchsorted(wts, np.array(cex['rn']), side='right')
+                sim = np.zeros(len(rr))
+                for c_ in cells:
+                    sim[min(int(c_), len(rr) - 1)] += 1
+                want_sim = _ref_bll(rr, sim)
+                got_sim = float(np.asarray(res.test_distribution, dtype=float)[0])
+                if not _close(got_sim, want_sim):
+                    msgs.append('%s simulated entry %r for draws %r, definition on the simulated catalog gives %r (rates %r)'
+                                % (cex['fn'], got_sim, cex['rn'], want_sim, cex['rates']))
             if cex['fn'] == 'binary_spatial_test':
                 r, w = R.sum(axis=1), W.sum(axis=1)
             else:
@@ -129,6 +145,8 @@ def jobs(tier, seed):
         out.append({'name': 'activity-only dependence shape=%s' % (sh,), 'kind': 'act', 'shape': sh, 'tier': tier, 'cost': 3})
     for fn in ('binary_spatial_test', 'binary_conditional_likelihood_test', 'brier_score_test'):
         out.append({'name': 'public %s 2x2' % fn, 'kind': 'public', 'fn': fn, 'tier': tier, 'cost': 20})
+    out.append({'name': 'public binary_conditional_likelihood_test 2x2, injected random numbers', 'kind': 'public',
+                'fn': 'binary_conditional_likelihood_test', 'inject': True, 'tier': tier, 'cost': 30})
     for j in out:
         j['wall'] = 900 if tier == 'quick' else 3400
     return out
@@ -276,6 +294,7 @@ def _job_public(job):
         return r
     mod_._simulate_catalog = recording_sim
     flat_l = [x for row in lam for x in row]
+    us = [z3.Real('u0'), z3.Real('u1')]
 
     def run():
         for c in lcons + wcons + _exp_axioms(flat_l + [z3.Sum(r) for r in lam]):
@@ -283,7 +302,15 @@ def _job_public(job):
         core.CTX.notes.setdefault('random', {'seed_calls': [], 'draws': []})['max_draws'] = 3
         fore = F.mk_forecast(L, lam)
         obs = F.ObsStub(L, w, fore.region, 2)
-        res = getattr(mod_, fn)(fore, obs, num_simulations=1, seed=None)
+        if job.get('inject'):
+            # the caller supplies the uniform numbers: two draws (they may land in the same cell) for two active observed cells
+            core.assume(z3.Sum([z3.If(x > 0, 1, 0) for row in w for x in row]) == 2)
+            for u in us:
+                core.assume(z3.And(u >= 0, u < 1))
+            rn = symnp.asarray([[XR(u) for u in us]])
+            res = getattr(mod_, fn)(fore, obs, num_simulations=1, seed=None, random_numbers=rn)
+        else:
+            res = getattr(mod_, fn)(fore, obs, num_simulations=1, seed=None)
         return res.observed_statistic, res.test_distribution, res.quantile
     paths, trunc = core.explore(run, max_paths=6000)
     if fn == 'binary_spatial_test':
@@ -299,7 +326,10 @@ def _job_public(job):
         spec_v, spec_inf = _bll_spec(rates_v, act)
 
     def cexf(mod, P):
-        return {'kind': 'public', 'fn': fn, 'rates': F.model_rates(mod, lam), 'counts': F.model_counts(mod, w)}
+        c = {'kind': 'public', 'fn': fn, 'rates': F.model_rates(mod, lam), 'counts': F.model_counts(mod, w)}
+        if job.get('inject'):
+            c['rn'] = [float(core.real_from_model(mod, u)) for u in us]
+        return c
 
     def vio(P):
         o, dist, q = P.value
